@@ -658,3 +658,59 @@ Proof.
   destruct (value_loop_general m ps _ [] st c t Hne Hwf Hlen Hc Hh Hnc Hr) as (sc' & H & Hr').
   rewrite H. cbn [obind app]. exists sc'. split; [reflexivity|exact Hr'].
 Qed.
+
+(* ---- normalize_whitespace is idempotent; its result has single spaces only ---- *)
+Lemma split_ws_aux_words_nonempty s : forall acc w, In w (split_ws_aux s acc) -> w <> [].
+Proof.
+  induction s as [|x t IH]; intros acc w Hw; cbn [split_ws_aux] in Hw.
+  - destruct acc as [|a acc]; [contradiction|]. destruct Hw as [<-|[]].
+    intros E. apply (f_equal (@length _)) in E. rewrite rev_length in E. discriminate.
+  - destruct (is_space x).
+    + destruct acc as [|a acc].
+      * eapply IH; eauto.
+      * destruct Hw as [<-|Hw]; [|eapply IH; eauto].
+        intros E. apply (f_equal (@length _)) in E. rewrite rev_length in E. discriminate.
+    + eapply IH; eauto.
+Qed.
+
+Lemma split_ws_aux_word w : forall acc rest, (forall c, In c w -> is_space c = false) ->
+  split_ws_aux (w ++ rest) acc = split_ws_aux rest (rev w ++ acc).
+Proof.
+  induction w as [|x w IH]; intros acc rest Hw; [reflexivity|].
+  cbn [app split_ws_aux]. rewrite (Hw x (or_introl eq_refl)).
+  rewrite IH by (intros c Hc; apply Hw; right; exact Hc).
+  cbn [rev]. rewrite <- app_assoc. reflexivity.
+Qed.
+
+Definition is_word (w : str) : Prop := w <> [] /\ forall c, In c w -> is_space c = false.
+
+Lemma split_ws_join ws : Forall is_word ws -> split_ws (join [c_space] ws) = ws.
+Proof.
+  unfold split_ws. induction ws as [|p [|q rest] IH]; intros H.
+  - reflexivity.
+  - inversion H as [|? ? [Hne Hns] _]; subst. cbn [join].
+    rewrite <- (app_nil_r p) at 1. rewrite split_ws_aux_word by exact Hns. rewrite app_nil_r.
+    cbn [split_ws_aux]. destruct (rev p) eqn:E.
+    + exfalso. apply Hne. apply (f_equal (@rev _)) in E. rewrite rev_involutive in E. exact E.
+    + rewrite <- E, rev_involutive. reflexivity.
+  - inversion H as [|? ? [Hne Hns] Hr]; subst.
+    change (join [c_space] (p :: q :: rest)) with (p ++ c_space :: join [c_space] (q :: rest)).
+    rewrite split_ws_aux_word by exact Hns. rewrite app_nil_r. cbn [split_ws_aux].
+    change (is_space c_space) with true. cbv iota.
+    destruct (rev p) eqn:E.
+    + exfalso. apply Hne. apply (f_equal (@rev _)) in E. rewrite rev_involutive in E. exact E.
+    + rewrite <- E, rev_involutive. f_equal. apply IH. exact Hr.
+Qed.
+
+Lemma split_ws_words s : Forall is_word (split_ws s).
+Proof.
+  apply Forall_forall. intros w Hw. split.
+  - eapply split_ws_aux_words_nonempty; exact Hw.
+  - eapply split_ws_aux_words_nonspace; [exact Hw|intros ? []].
+Qed.
+
+Lemma split_ws_normalized s : split_ws (normalize_whitespace s) = split_ws s.
+Proof. rewrite normalize_whitespace_words. apply split_ws_join. apply split_ws_words. Qed.
+
+Lemma normalize_whitespace_idem s : normalize_whitespace (normalize_whitespace s) = normalize_whitespace s.
+Proof. rewrite (normalize_whitespace_words (normalize_whitespace s)), split_ws_normalized, <- normalize_whitespace_words. reflexivity. Qed.
